@@ -106,6 +106,22 @@ Theorem C01_overflow_truncates : forall f t size chunks,
 Proof. exact path_raw_over. Qed.
 Print Assumptions C01_overflow_truncates.
 
+(* For EVERY declared size (matching, short, over, negative, oversized): what
+   the raw / lazy writer returns and stores depends only on the concatenation
+   of the chunks, never on how the caller split them. *)
+Theorem C01_chunking_independent : forall f t size c1 c2,
+  concat c1 = concat c2 -> path_raw f t size c1 = path_raw f t size c2.
+Proof. exact thm_chunking_independent. Qed.
+Print Assumptions C01_chunking_independent.
+
+(* Exactly which streams objfile.Reader.Header accepts: a type name without
+   space that ParseObjectType knows, one space, a size text without NUL that
+   strconv.ParseInt(…, 10, 64) accepts, a NUL, all within maxHeaderLen bytes. *)
+Theorem C01_read_header_spec : forall raw t n c,
+  read_header raw = Ok (t, n, c) <-> header_shape raw t n c.
+Proof. exact thm_read_header_spec. Qed.
+Print Assumptions C01_read_header_spec.
+
 (* MemoryObject.Hash of a freshly filled object is git's ID ... *)
 Theorem C01_memobj_fresh : forall f t chunks,
   snd (m_hash f (m_fill t (blen (concat chunks)) chunks)) = Some (git_oid f t (concat chunks)).
